@@ -37,7 +37,7 @@ def get_nn_dist(kdt, query_point, dist_max, dist_min, active_points, test_value)
 
     if rp_idx.size == 0:
         return -1, []
-    elif dist_min > 0:
+    elif dist_min >= 0:  # the interval is open at its lower end also for dist_min == 0 (a site at distance 0 is not a neighbour)
         rp_idx = rp_idx[rp_dist > dist_min]
         rp_dist = rp_dist[rp_dist > dist_min]
 
@@ -602,7 +602,7 @@ def nn_cases():
             in_sure = in_maybe = d_all <= dmax
         else:
             in_sure, in_maybe = d_all < dmax - 1e-9, d_all < dmax + 1e-9
-        low = (d_all > dmin) if dmin > 0 else np.full(n, True)
+        low = (d_all > dmin) if dmin >= 0 else np.full(n, True)
         for tv in (True, False):
             sure, maybe = (active == tv) & in_sure & low, (active == tv) & in_maybe & low
             a0 = active.copy()
@@ -622,11 +622,11 @@ def nn_cases():
                 assert (not sure.any()) or r_new[1] <= d_all[sure].min()
             ncase += 1
     # point number 0 is a legitimate answer (an index that is "false" as a number)
-    pts = np.array([[0.0, 0.0, 0.0], [5.0, 0.0, 0.0]])
+    pts = np.array([[0.25, 0.0, 0.0], [5.0, 0.0, 0.0]])  # (a point AT the query point is at distance 0, outside (0, max])
     kdt = sn.KDTree(pts)
     for fn in (ribana.get_nn_dist, ORIG["get_nn_dist"]):
         i, d = fn(kdt, np.zeros((1, 3)), 1.0, 0, np.array([True, True]), True)
-        assert i == 0 and d == 0.0 and not isinstance(d, list)
+        assert i == 0 and d == 0.25 and not isinstance(d, list)
         i, d = fn(kdt, np.zeros((1, 3)), 1.0, 0, np.array([False, True]), True)
         assert i == -1 and d == []
         i, d = fn(kdt, np.zeros((1, 3)), 5.0, 0, np.array([False, True]), True)
